@@ -61,6 +61,11 @@ CLAIMS = {
         text="Machine-checked for every call history: each call leaves next_id unchanged or advances it by one; the ids allocated along a history are exactly the consecutive range from the start (1, or the header bound of a continued module) to the final counter, so they are distinct and increasing and the finished header bound exceeds all of them; an implicit type request returns the first identical declaration's id and changes nothing, or appends exactly one declaration with a fresh id; an explicit id always appends; implicit-only request sequences keep types_global_values free of identical declarations.",
         note="Trusted: Lean kernel + standard axioms; Builder model + translated method specs + differential harness (all 32 generated dedup type methods and type_pointer exercised); id space not exhausted.",
         ref="DESIGN.md §8 C13"),
+    "C06": dict(
+        technique="Lean 4 table theorem (merge-walk, proved sound) over the specs of all ~1100 generated Builder methods translated from the source, judged against the grammar table, the loader's classification and the opcode enumeration; end-to-end build->assemble->load equality by differential on complete histories",
+        text="Machine-checked for every generated instruction-emitting method (minus recorded findings): opcode has a grammar entry; result type/id exactly when the entry has one; operand slots equal the entry's operands kind by kind, quantifier by quantifier, in grammar order and fed by the parameters in signature order (a swap of two equal-kinded arguments fails); parameters of parameterised kinds only via a single trailing additional_params; the sink (section / block / block end) is where the loader files that opcode; the Builder ends a block for exactly the terminator opcodes. End-to-end equality of a built module with its assemble-then-load image is C06_partial: decided by the differential (every method once in a minimal complete history + seeded complete histories) on top of C05/C12/C13/C15.",
+        note="Trusted: Lean kernel + standard axioms; translator builder.py (every token of 1128 methods, validated by calling each method in the harness and comparing with the model's prediction); hand models; ArgsConform/complete-history hypotheses as stated in the evidence; known findings: type_struct_continued_intel(_id), begin_block_no_label.",
+        ref="DESIGN.md §8 C06"),
 }
 
 
